@@ -51,6 +51,23 @@ def fail_progress(d: Ref['dict'], ks: Any, i: int, reason: Any) -> bool:
             and forall(lambda k: implies(not old(contains(d, k)), not contains(d, k))))
 
 
+KEEP_LOST = KEEP + ['deferred', 'msgId', 'retries', 'qos', 'topic', 'retain', 'payload', 'encoded', 'dup', 'interval', 't_fn', 't_arg',
+                    't_owner', 't_delay', 'q_pos', 'd_owner', '_value', '_k', 'initial', 'factor', 'bandwith', 'maxDelay', 'tr_out',
+                    '$dq', '$dqt']
+
+
+@spec
+def cancelled_stay() -> bool:
+    """a timer that had been cancelled stays cancelled"""
+    return forall(lambda t: implies(old(is_int(obj_at(t).t_status) and obj_at(t).t_status == 1),
+                                    is_int(obj_at(t).t_status) and obj_at(t).t_status == 1))
+
+
+@spec
+def ping_untouched(self: Ref['mqtt.client.pubsubs.MQTTProtocol']) -> bool:
+    return unchanged(self._pingReq.alarm) and cancelled_stay()
+
+
 @spec
 def core(self: Ref['mqtt.client.pubsubs.MQTTProtocol']) -> bool:
     return (is_obj(self.addr) and wf_proto(self) and distinct_containers(self) and inv_W(self) and inv_R(self) and inv_S(self)
@@ -62,9 +79,11 @@ def _(self: Ref['mqtt.client.pubsubs.MQTTProtocol'], reason: Any):
     requires(is_obj(self.addr))
     requires(inv(self) and is_none(self.g_firing) and is_list_bytes(self.transport.tr_out))
     requires(is_exc(reason) or is_obj(reason))
-    modifies(all_but(KEEP))
+    requires(isa(self._pingReq, 'mqtt.pdu.PINGREQ'))
+    modifies(all_but(KEEP_LOST))
     ensures(inv(self))
     ensures(out(self) == old(out(self)))
+    ensures(ping_untouched(self))
     # no retry timer survives the loss
     ensures(alarms_cleared(W(self)) and alarms_cleared(R(self)))
     # pending SUBSCRIBE / UNSUBSCRIBE requests fail with the reason in either session mode
@@ -86,6 +105,7 @@ def _(self: Ref['mqtt.client.pubsubs.MQTTProtocol'], reason: Any):
 def _():
     invariant(is_obj(self.addr))
     invariant(core(self))
+    invariant(ping_untouched(self))
     invariant(keys_kept(W(self)) and keys_kept(R(self)) and keys_kept(S(self)) and keys_kept(U(self)))
     invariant(alarms_progress(S(self), keys, idx))
     invariant(alarms_untouched(U(self)) and alarms_untouched(W(self)) and alarms_untouched(R(self)))
@@ -95,6 +115,7 @@ def _():
 def _():
     invariant(is_obj(self.addr))
     invariant(core(self))
+    invariant(ping_untouched(self))
     invariant(keys_kept(W(self)) and keys_kept(R(self)) and keys_kept(S(self)) and keys_kept(U(self)))
     invariant(alarms_cleared(S(self)))
     invariant(alarms_progress(U(self), keys, idx))
@@ -105,6 +126,7 @@ def _():
 def _():
     invariant(is_obj(self.addr))
     invariant(core(self))
+    invariant(ping_untouched(self))
     invariant(keys_kept(W(self)) and keys_kept(R(self)) and keys_kept(S(self)) and keys_kept(U(self)))
     invariant(alarms_cleared(S(self)) and alarms_cleared(U(self)))
     invariant(alarms_progress(W(self), keys, idx))
@@ -115,6 +137,7 @@ def _():
 def _():
     invariant(is_obj(self.addr))
     invariant(core(self))
+    invariant(ping_untouched(self))
     invariant(keys_kept(W(self)) and keys_kept(R(self)) and keys_kept(S(self)) and keys_kept(U(self)))
     invariant(alarms_cleared(S(self)) and alarms_cleared(U(self)) and alarms_cleared(W(self)))
     invariant(alarms_progress(R(self), keys, idx))
@@ -124,6 +147,7 @@ def _():
 def _():
     invariant(is_obj(self.addr))
     invariant(core(self))
+    invariant(ping_untouched(self))
     invariant(keys_kept(W(self)) and keys_kept(R(self)) and keys_kept(U(self)))
     invariant(alarms_cleared(S(self)) and alarms_cleared(U(self)) and alarms_cleared(W(self)) and alarms_cleared(R(self)))
     invariant(fail_progress(S(self), keys, idx, reason))
@@ -133,6 +157,7 @@ def _():
 def _():
     invariant(is_obj(self.addr))
     invariant(core(self))
+    invariant(ping_untouched(self))
     invariant(keys_kept(W(self)) and keys_kept(R(self)))
     invariant(alarms_cleared(S(self)) and alarms_cleared(U(self)) and alarms_cleared(W(self)) and alarms_cleared(R(self)))
     invariant(all_failed(S(self), reason))
@@ -143,6 +168,7 @@ def _():
 def _():
     invariant(is_obj(self.addr))
     invariant(core(self))
+    invariant(ping_untouched(self))
     invariant(queue == Q(self))
     invariant(alarms_cleared(S(self)) and alarms_cleared(U(self)) and alarms_cleared(W(self)) and alarms_cleared(R(self)))
     invariant(all_failed(S(self), reason) and all_failed(U(self), reason) and all_failed(W(self), reason) and all_failed(R(self), reason))
@@ -151,3 +177,30 @@ def _():
     invariant(forall(lambda j: implies(old(dq_head(Q(self))) <= j and j < dq_head(Q(self)) and old(dq_at(Q(self), j)).qos > 0,
                                        failed_with(old(dq_at(Q(self), j)), reason))))
     decreases(dq_len(Q(self)))
+
+
+@contract('mqtt.client.base.MQTTBaseProtocol.connectionLost', props=['C04', 'C11', 'C12', 'C13', 'C15', 'C07', 'C18', 'C16'],
+          classes=PROFILES, deadline=1500)
+def _(self: Ref['mqtt.client.pubsubs.MQTTProtocol'], reason: Any):
+    requires(is_obj(self.addr))
+    requires(base_ok(self))
+    requires(is_exc(reason) or is_obj(reason))
+    tm = as_ref(self._pingReq.timer)
+    al = as_ref(self._pingReq.alarm)
+    modifies(all_but(KEEP_CONN))
+    ensures(base_ok(self))
+    # idle again; no keepalive activity outlives the connection
+    ensures(self.state == self.IDLE and is_none(self._pingReq.timer) and is_none(self._pingReq.alarm))
+    ensures(implies(not old(is_none(self._pingReq.timer)), is_bool(tm.lc_running) and not tm.lc_running))
+    ensures(implies(not old(is_none(self._pingReq.alarm)), is_int(al.t_status) and al.t_status == 1))
+    ensures(out(self) == old(out(self)))
+    # pending requests are failed or preserved as the session mode demands (contract of doConnectionLost) ...
+    ensures(alarms_cleared(W(self)) and alarms_cleared(R(self)) and all_failed(S(self), reason) and all_failed(U(self), reason))
+    ensures(implies(self._cleanStart, all_failed(W(self), reason) and all_failed(R(self), reason) and dq_len(Q(self)) == 0))
+    ensures(implies(not self._cleanStart, keys_kept(W(self)) and keys_kept(R(self))
+                    and dq_head(Q(self)) == old(dq_head(Q(self))) and dq_tail(Q(self)) == old(dq_tail(Q(self)))))
+    # ... and only then is the onDisconnection notification scheduled, once, with the reason
+    ensures(implies(is_func(self.onDisconnection),
+                    isa(last_alloc(), 'DelayedCall') and is_fresh(last_alloc()) and last_alloc().t_status == 0
+                    and last_alloc().t_fn == self.onDisconnection and last_alloc().t_arg == reason
+                    and num(last_alloc().t_delay) * 10 == 1))
